@@ -53,11 +53,13 @@ def o71(ctx):
                         extracted=tm.show(to_term(order))[:160])
         j = to_term(inner.extra["elem"])
         stores = [e for e in it.events if e.kind == "store" and e.fn == Q1 and e.name == "elementwise"]
-        removal = [e for e in stores if tm.show(to_term(e.args[0])).startswith("loopvar:temp_keep") or "temp_keep" in norm_text(e.node)]
-        removal = [e for e in removal if "temp_keep" in norm_text(e.node).split("=")[0]]
+        # role, not name: the removal store clears a keep-flag array (loop-carried) through a mask; the other store clears
+        # element j of that mask
+        removal = [e for e in stores if to_term(e.args[1]) != j and tm.cval(to_term(e.args[2])) is False
+                   and tm.show(to_term(e.args[0])).startswith("loopvar:")]
         selfex = [e for e in stores if e not in removal]
         if len(removal) != 1:
-            raise Unsupported("removal store temp_keep[...] = False not recognised", fn)
+            raise Unsupported("removal store <keep flags>[<mask>] = False not recognised", fn)
         rem = removal[0]
         mask = to_term(rem.args[1])
         # (b) self exclusion
@@ -71,7 +73,7 @@ def o71(ctx):
         # (c) predicate: distance of complete positions < d
         cmp_ = inner_mask
         ctx.count(1, {"removal predicate": tm.show(no_sel(cmp_))[:200]})
-        if cmp_.op not in ("lt", "le") or cmp_.args[1] != sym("distance_in_voxels"):
+        if cmp_.op not in ("lt", "le") or cmp_.args[1] != sym("distance_in_voxels"):  # (a > b is stored as b < a)
             ctx.finding(Q1, rem.node, "particles must be removed iff their distance is below the caller's distance threshold "
                         "(distance < d, d unscaled)", rem.node, m, predicate=tm.show(cmp_)[:200])
         else:
@@ -100,7 +102,7 @@ def o71(ctx):
                             "(feature == f): particles of different groups must never affect each other", rem.node, m)
         # (e) only kept particles suppress
         ctx.count(1)
-        keep_guard = [g for g in rem.guards if g.op == "call" and g.args[0] == "getitem" and tm.show(g.args[1]).startswith("loopvar:temp_keep")
+        keep_guard = [g for g in rem.guards if g.op == "call" and g.args[0] == "getitem" and g.args[1] == to_term(rem.args[0])
                       and g.args[2] == j]
         if not keep_guard:
             ctx.finding(Q1, rem.node, "a particle may suppress others only while it is itself still kept (if temp_keep[j])", rem.node, m,
@@ -155,7 +157,7 @@ def o75(ctx):
     if not wh:
         raise Unsupported("candidate selection np.where(scores > threshold) not found", fn)
     c = to_term(wh[0].args[0])
-    if c.op not in ("gt", "ge") or c.args[0] != SC or c.args[1] != sym("thr"):
+    if c.op not in ("lt", "le") or c.args[1] != SC or c.args[0] != sym("thr"):
         ctx.finding(Q2, wh[0].node, "candidates must be the voxels whose score exceeds the threshold (score > threshold)", wh[0].node, m,
                     predicate=tm.show(c)[:120])
     # descending processing order
@@ -175,7 +177,7 @@ def o75(ctx):
     balls = [e for e in it.events if e.kind == "call" and e.name == "method:query_ball_point" and e.fn == Q2]
     if len(trees) != 1 or len(balls) != 1:
         raise Unsupported("KD-tree suppression structure not recognised", fn)
-    sc = env.get("scored_coords")
+    sc = srt[0].extra.get("ret")  # the sorted candidate list (by role: the value sorted(...) produced)
     sc_t = to_term(sc) if sc is not None else None
     ctx.count(1, {"ball radius": tm.show(to_term(balls[0].args[2]))})
     if to_term(balls[0].args[2]) != sym("particle_diameter"):
@@ -191,15 +193,13 @@ def o75(ctx):
     if not ok_idx:
         ctx.finding(Q2, balls[0].node, "the indices returned by the ball query must index the list the tree was built on", balls[0].node, m)
     # neighbour removed only if its score <= the peak's
-    brs = [e for e in it.events if e.kind == "branch" and e.fn == Q2 and tm.contains(to_term(e.args[0]), lambda n: n.op in ("le", "lt", "ge", "gt"))
+    brs = [e for e in it.events if e.kind == "branch" and e.fn == Q2 and tm.contains(to_term(e.args[0]), lambda n: n.op in ("le", "lt"))
            and tm.has_call(to_term(e.args[0]), "dictcomp")]
     ctx.count(1)
     good = False
     for b in brs:
         for n in tm.walk(to_term(b.args[0])):
             if n.op in ("le", "lt") and tm.has_call(n.args[0], "dictcomp") and not tm.has_call(n.args[1], "dictcomp"):
-                good = True
-            if n.op in ("ge", "gt") and tm.has_call(n.args[1], "dictcomp") and not tm.has_call(n.args[0], "dictcomp"):
                 good = True
     if not good:
         ctx.finding(Q2, brs[0].node if brs else fn, "a neighbour may be removed only if its score is <= the score of the peak being kept",
@@ -209,12 +209,14 @@ def o75(ctx):
     if len(fills) != 1 or not isinstance(fills[0].args[0], DictV):
         raise Unsupported("Motl.fill call not found", fn)
     d = fills[0].args[0].items
-    rpos = env.get("rpos")
-    fs = env.get("filtered_scores")
-    if rpos is None or fs is None:
-        raise Unsupported("remaining positions / scores not found", fn)
-    rp = to_term(rpos)
     full = call("slice", const(None), const(None), const(None))
+    # by role: the remaining positions are the array whose column 0 feeds "x"; the remaining scores feed "score"
+    cands = [n.args[1] for n in tm.walk(to_term(d["x"])) if n.op == "call" and n.args[0] == "getitem" and len(n.args) == 3
+             and n.args[2] == T("vec", full, const(0))] if "x" in d else []
+    fs = d.get("score")
+    if not cands or fs is None:
+        raise Unsupported("remaining positions (array whose column 0 gives x) / scores not found in Motl.fill", fn)
+    rp = cands[0]
     comp = lambda k: call("getitem", rp, T("vec", full, const(k)))
     for k, c in enumerate("xyz"):
         ctx.count(1)
@@ -223,8 +225,8 @@ def o75(ctx):
             ctx.finding(Q2, fills[0].node, f"{c} must be the voxel index on axis {k} plus 1 (0-based index -> 1-based position)", fills[0].node, m,
                         extracted=tm.show(to_term(d[c]))[-120:] if c in d else None)
     ctx.count(1)
-    if "score" not in d or to_term(d["score"]) != to_term(fs):
-        ctx.finding(Q2, fills[0].node, "each peak must carry its own score", fills[0].node, m)
+    if not tm.contains(to_term(fs), lambda n: n == SC or n == sym("scores")):
+        ctx.finding(Q2, fills[0].node, "each peak must carry its own score (taken from the scores map)", fills[0].node, m)
     # positions and scores filtered by the same mask
     ctx.count(1, {"rpos": tm.show(rp)[-80:], "scores": tm.show(to_term(fs))[-80:]})
     ok = rp.op == "call" and rp.args[0] == "getitem" and to_term(fs).op == "call" and to_term(fs).args[0] == "getitem" \
